@@ -1,3 +1,5 @@
+//go:build prop_c21 || prop_all
+
 package main
 
 // C21 — External commands report their real exit status.
@@ -21,9 +23,9 @@ type c21Case struct {
 }
 
 type c21Obs struct {
-	Exit    int  `json:"exit"`
-	Next    bool `json:"next"`
-	Timeout bool `json:"timeout,omitempty"`
+	Exit    int    `json:"exit"`
+	Next    bool   `json:"next"`
+	Timeout bool   `json:"timeout,omitempty"`
 	Raw     string `json:"raw,omitempty"`
 }
 
